@@ -19,6 +19,9 @@ theorem zeroOf_eq (t : Ty) (ht : tyOK t = true) : zeroOf t = Spec.Protobuf.zeroO
   case struct fs =>
     simp only [Bool.and_eq_true] at ht
     simp only [zeroOf, Spec.Protobuf.zeroOf, zeroFields_eq fs 1 ht.1]
+  case arr n e =>
+    have := isByte_eq e ht; subst this
+    simp only [zeroOf, Spec.Protobuf.zeroOf]
   all_goals simp only [zeroOf, Spec.Protobuf.zeroOf]
 theorem zeroFields_eq (fs : Fields) (pos : Nat) (hf : fieldsOK pos fs = true) :
     zeroFields fs = Spec.Protobuf.zeroFields fs := by
@@ -54,6 +57,9 @@ theorem zeroOfCodec_codecFor (t : Ty) (o : FieldOpt) (ht : tyOK t = true) : zero
     cases e with
     | int k => cases k <;> simp only [codecOf, zeroOfCodec, zeroOf]
     | _ => simp only [codecOf, zeroOfCodec, zeroOf]
+  case arr n e =>
+    have := isByte_eq e ht; subst this
+    simp only [codecFor, codecOf, zeroOfCodec, zeroOf]
   all_goals simp only [codecFor, codecOf, zeroOfCodec, zeroOf]
 theorem zeroCFields_fieldsOf (fs : Fields) (pos : Nat) (hf : fieldsOK pos fs = true) :
     zeroOfCodec.zeroCFields (fieldsOf pos fs) = zeroFields fs := by
@@ -206,4 +212,21 @@ theorem dec_scalar (t : Ty) (o : FieldOpt) (v : Val) (efl dfl : Flags)
           exact isPayload_varlen [] (by simp)
         · exact ⟨by simp [canonical, canonTy], by simp [hw]⟩
       · cases hp
+  case arr n e =>
+    have := isByte_eq e ht; subst this
+    cases v <;> simp only [hasType, Bool.and_eq_true, decide_eq_true_eq] at hv <;> try (exact absurd hv (by decide))
+    rename_i s
+    obtain ⟨_, hv⟩ := hv
+    subst hv
+    simp only [codecFor, codecOf] at hlen ⊢
+    simp only [payload] at hp
+    split at hp
+    · rename_i hw
+      have hw' : (efl.wantzero || !isZeroBytes s) = true := by rw [Bool.or_comm]; exact hw
+      have hsl : s.length < 2 ^ 64 := by
+        simp only [encode, hw', if_true, fixLen_self, List.length_append] at hlen; omega
+      refine ⟨.str s, ?_, fun f cur => decode_encode_byteArray s efl dfl cur f hsl hw', Agr.rfl' _ _ _⟩
+      simp only [encode, hw', if_true, Codec.wire, fixLen_self]
+      exact isPayload_varlen s hsl
+    · cases hp
 end Enc.Lemmas.ProtoRoundTrip
